@@ -49,8 +49,15 @@ func (x *Exec) freshResults(st *State, sig *types.Signature, prefix string) []*V
 
 // callAssertions: `atcall` clauses of the function under verification for this call site.
 func (x *Exec) callAssertions(st *State, in ssa.Instruction, c *ssa.CallCommon, args []*Value) {
-	if x.fc == nil || len(x.fc.AtCall) == 0 || st.top().depth != 0 || x.discovery > 0 || in == nil {
+	if x.fc == nil || len(x.fc.AtCall) == 0 || x.discovery > 0 || in == nil {
 		return
+	}
+	if st.top().depth != 0 {
+		// also inside closures of the function under verification (e.g. a local flush helper)
+		top := st.top().fn
+		if top.Parent() != x.fn {
+			return
+		}
 	}
 	name := ""
 	if c.IsInvoke() {
@@ -65,6 +72,9 @@ func (x *Exec) callAssertions(st *State, in ssa.Instruction, c *ssa.CallCommon, 
 	names := cloneNames(x.params)
 	for i, a := range args {
 		names[fmt.Sprintf("arg%d", i)] = a
+	}
+	if c.IsInvoke() {
+		names["recv"] = x.get(st, c.Value)
 	}
 	pkg := x.fn.Pkg.Pkg
 	env := &Env{x: x, st: st, old: x.entry, names: names, pkg: pkg, pkgPath: pkg.Path(), fn: x.fn, atBlock: st.curBlock, proving: true}
